@@ -951,6 +951,7 @@ def _finish_modules(modules: dict) -> int:
                 unmove.reattach(m.tree, rp)
                 unmove.specialise(m.tree, rp)
                 unmove.tail_returns(m.tree, rp)
+        unmove.inline_expr_helpers(modules, ref)
     if not os.environ.get("VERIF_NO_ALPHA") and ref:
         from . import alpha
         mapping: dict[str, str] = {}
